@@ -137,7 +137,7 @@ pub fn run(ctx: &Ctx, st: &mut Stats) {
     }
     // every microsecond count of a day as an interval of either sign: conversion to a time of day, and add/sub to one time
     // (thorough: all 86,400,000,000; quick: a stride coprime to the powers of two and ten)
-    let ustride: i64 = ctx.tier.pick(400_000_009, ctx.q(100_003, 20_011), 1);
+    let ustride: i64 = ctx.tier.pick(400_000_009, ctx.q(100_003, 20_011), ctx.big(1009, 1));
     let chunk: i64 = 1_000_000;
     ctx.par(st, "every microsecond interval within one day, both signs: Time::from(interval) and 12:00:00.5 +- interval", true, 0, DAY_US / chunk, |st, c, rng| {
         let days = rng.range_i64(0, 99_999_998) * DAY_US;
